@@ -1855,6 +1855,121 @@ fn gen_utf8_stream(rng: &mut Rng) -> Vec<u8> {
     s
 }
 
+// ---------------------------------------------------------------- part C: the cell writers as clients of the decoders
+
+/// recording `CellWrite` target with room for `room` cells
+struct Rec {
+    face: surf_n_term::Face,
+    wraps: bool,
+    room: usize,
+    cells: Vec<String>,
+}
+
+impl surf_n_term::CellWrite for Rec {
+    fn face(&self) -> surf_n_term::Face {
+        self.face
+    }
+    fn set_face(&mut self, face: surf_n_term::Face) -> surf_n_term::Face {
+        std::mem::replace(&mut self.face, face)
+    }
+    fn wraps(&self) -> bool {
+        self.wraps
+    }
+    fn set_wraps(&mut self, wraps: bool) -> bool {
+        std::mem::replace(&mut self.wraps, wraps)
+    }
+    fn put_cell(&mut self, cell: surf_n_term::Cell) -> bool {
+        if self.cells.len() < self.room {
+            self.cells.push(format!("{:?} {}", cell.kind(), events::show_face(&cell.face())));
+            true
+        } else {
+            false
+        }
+    }
+}
+
+/// reader that hands out at most `k` bytes per read (for `io::copy`)
+struct SmallReads<'a> {
+    data: &'a [u8],
+    k: usize,
+}
+
+impl std::io::Read for SmallReads<'_> {
+    fn read(&mut self, buf: &mut [u8]) -> std::io::Result<usize> {
+        let n = self.k.min(buf.len()).min(self.data.len());
+        buf[..n].copy_from_slice(&self.data[..n]);
+        self.data = &self.data[n..];
+        Ok(n)
+    }
+}
+
+/// how the stream is handed to the writer
+enum Feed<'a> {
+    Pieces(Vec<&'a [u8]>),
+    Copy(usize),
+}
+
+/// cells, final face and Ok / Err of writing `stream` through `tty_writer()` / `utf8_writer()`
+fn writer_run(tty: bool, room: usize, stream: &[u8], feed: &Feed) -> String {
+    use surf_n_term::CellWrite;
+    guarded(|| {
+        let mut rec = Rec { face: surf_n_term::Face::default(), wraps: false, room, cells: Vec::new() };
+        let result = {
+            let go = |w: &mut dyn std::io::Write| -> std::io::Result<()> {
+                match feed {
+                    Feed::Pieces(ps) => {
+                        for p in ps {
+                            w.write_all(p)?;
+                        }
+                        Ok(())
+                    }
+                    Feed::Copy(k) => std::io::copy(&mut SmallReads { data: stream, k: *k }, w).map(|_| ()),
+                }
+            };
+            if tty { go(&mut rec.by_ref().tty_writer()) } else { go(&mut rec.by_ref().utf8_writer()) }
+        };
+        format!(
+            "{} cells=[{}] face={}",
+            match result {
+                Ok(()) => "ok".to_string(),
+                Err(e) => format!("err:{:?}", e.kind()),
+            },
+            rec.cells.join(" ; "),
+            events::show_face(&rec.face)
+        )
+    })
+    .unwrap_or_else(|()| "PANIC".to_string())
+}
+
+/// the writers must deliver the same cells, leave the same face and report the same outcome however the
+/// stream is cut into write calls by a caller that honours the returned counts (`write_all`, `io::copy`)
+fn writer_case(ctx: &mut Ctx, tty: bool, room: usize, stream: &[u8]) {
+    let name = if tty { "tty_writer" } else { "utf8_writer" };
+    let single = writer_run(tty, room, stream, &Feed::Pieces(vec![stream]));
+    let mut feeds: Vec<(String, Feed)> = Vec::new();
+    for cut in 0..=stream.len() {
+        feeds.push((format!("{}/{}", hex(&stream[..cut]), hex(&stream[cut..])), Feed::Pieces(vec![&stream[..cut], &stream[cut..]])));
+    }
+    feeds.push(("bytewise".into(), Feed::Pieces(stream.chunks(1).collect())));
+    for k in 1..=5 {
+        feeds.push((format!("io::copy with reads of {k}"), Feed::Copy(k)));
+    }
+    for (how, feed) in &feeds {
+        let got = writer_run(tty, room, stream, feed);
+        ctx.out.case(&format!("{name} {room} {} {how}", hex(stream)), true);
+        ctx.out.hist(&format!("C:{name}"));
+        if got != single {
+            ctx.out.fail(
+                &format!("{name}: cells / final face / outcome depend on where the stream is cut into writes"),
+                json!({"kind": name, "stream": hex(stream), "room": room.to_string(), "writes": how}),
+                json!(single),
+                json!(got),
+            );
+            return;
+        }
+    }
+}
+
 // ---------------------------------------------------------------- main
 
 fn install_production(ctx: &mut Ctx) -> (RefDfa, RefDfa) {
@@ -2091,6 +2206,32 @@ fn main() {
             stream.extend(bytes);
         }
         production_case(&mut ctx, &mut rng, command, &stream, if command { &refs.1 } else { &refs.0 }, None);
+    }
+    // ---- part C: `utf8_writer()` / `tty_writer()` (src/render.rs) feed the decoders from write calls
+    let utf8_texts: Vec<Vec<u8>> = vec!["a\u{a2}b\u{20ac}c\u{10348}d-\u{44f}\u{44f}\u{20ac}\u{20ac}".as_bytes().to_vec(), "\u{20ac}".as_bytes().to_vec(), b"abc".to_vec()];
+    for t in &utf8_texts {
+        writer_case(&mut ctx, false, usize::MAX, t);
+    }
+    for _ in 0..(if cfg.thorough { 400 } else { 25 }) {
+        let t = text(&mut rng, 10);
+        writer_case(&mut ctx, false, usize::MAX, &t);
+    }
+    let tty_texts: Vec<&[u8]> = vec![b"\x1b[31mabcd\x1b[1;4mef\x1b[32mg", b"ab\x1b[1mc\x1b[", b"\x1b[38;2;1;2;3m\xe2\x82\xacx\x1b[m"];
+    for t in &tty_texts {
+        for room in [0usize, 1, 3, 4, usize::MAX] {
+            writer_case(&mut ctx, true, room, t);
+        }
+    }
+    for _ in 0..(if cfg.thorough { 400 } else { 25 }) {
+        let mut t = Vec::new();
+        for _ in 0..(1 + rng.below(4)) {
+            let (_, b) = if rng.chance(1, 2) { sequence_sgr(&mut rng) } else { ("utf8", text(&mut rng, 4)) };
+            t.extend(b);
+        }
+        t.truncate(60);
+        for room in [rng.below(6) as usize, usize::MAX] {
+            writer_case(&mut ctx, true, room, &t);
+        }
     }
     ctx.out.extra("pattern_sets", json!(ctx.dfa_serial));
     ctx.out.extra("skipped_aborts", json!(ctx.aborted.iter().take(5).collect::<Vec<_>>()));
